@@ -569,7 +569,9 @@ def run(ctx):
                 ctx.count("rows:not-sent-to-model(non-printable bytes / non-integer values / unknown exception text)")
         elif c["op"] == "rt":
             ctx.count("rt:" + c["F"])
-            bad = oracle_rt(ctx, c, o)
+            bad = list(oracle_rt(ctx, c, o) or [])
+            if o.get("view_same") is False:
+                bad.append(("C17:print:matrix-view-printed-differently", "print_csv of a %dx%d matrix VIEW (block / top rows of a larger matrix) differs from print_csv of the same matrix stored contiguously" % (c["rows"], c["cols"])))
         else:
             ctx.count("pp")
             bad = oracle_pp(ctx, c, o)
